@@ -406,6 +406,8 @@ def _run_case(case, fl, rng, mem, collect):
             return True
         return False
 
+    if mut is not None and mut[0] == 'cert-bomb':
+        bomb_payload(mut[1])
     if mem:
         tracemalloc.start()
         tracemalloc.reset_peak()
@@ -608,6 +610,18 @@ POST_EXTRA = ['hello-request', 'client-hello', 'keyupdate-bad', 'keyupdate-req',
               'unknown-hs', 'huge-hs-len', 'zero-hs']
 
 
+_BOMBS = {}
+
+
+def bomb_payload(n_mb):
+    """zlib stream of n_mb MiB of zeros; built (and cached) OUTSIDE the measured window so that the
+    harness's own allocation is not attributed to the endpoint under test"""
+    if n_mb not in _BOMBS:
+        import zlib
+        _BOMBS[n_mb] = zlib.compress(bytes(n_mb * 1024 * 1024), 9)
+    return _BOMBS[n_mb]
+
+
 def apply_msg_mutation(msg, mut, rng):
     """Returns ([replacement messages], description)."""
     name = mut[0]
@@ -615,9 +629,8 @@ def apply_msg_mutation(msg, mut, rng):
     data = bytes(msg.write())
     if name == 'cert-bomb' and ct == 22 and len(data) >= 4:
         # CompressedCertificate declaring a tiny uncompressed length over a highly compressible body
-        import zlib
         n_mb, declared = mut[1], mut[2]
-        comp = zlib.compress(bytes(n_mb * 1024 * 1024), 9)
+        comp = bomb_payload(n_mb)
         body = u16(1) + u24(declared) + u24(len(comp)) + comp
         return [RawMsg(22, hs_wrap(25, body))], 'hs25:cert-bomb(%dMB->%dB,declared=%d)' % (n_mb, len(comp), declared)
     if ct != 22 or len(data) < 4:
